@@ -242,6 +242,18 @@ func init() {
 		o, _, err := offline_signature.ReadOfflineSignature(w, uint16(t))
 		if err == nil {
 			fails = append(fails, methodFails("C04", "OfflineSignature", &o)...)
+			// exported methods with a byte-slice argument must return normally for every argument length
+			for _, n := range []int{0, 1, 31, 32, 33, 64, 128} {
+				func() {
+					defer func() {
+						if r := recover(); r != nil {
+							fails = append(fails, fail("C04", "method-panic:OfflineSignature.VerifySignature", "VerifySignature with a %d-byte key on an accepted offline signature (destination type %d) panicked: %v", n, t, r))
+						}
+					}()
+					ov, _, _ := offline_signature.ReadOfflineSignature(w, uint16(t))
+					ov.VerifySignature(make([]byte, n))
+				}()
+			}
 			buf := append([]byte{}, w...)
 			ob, _, _ := offline_signature.ReadOfflineSignature(buf, uint16(t))
 			fails = append(fails, scribble("ReadOfflineSignature", buf, func() string {
